@@ -563,7 +563,7 @@ func c17StopDuringStart(p *load.Program, r *core.Report, appT *types.Named, star
 		fan := false
 		why := ""
 		for range walkAvoid(edgePoints(on), isReturn, func(in ssa.Instruction) bool {
-			done, w := memberFanout(in, "group", "SendExit", "Kill")
+			done, w := memberFanout(in, "group", "SendExit", "RouteSendExit", "Kill")
 			if w != "" {
 				why = w
 			}
@@ -742,4 +742,113 @@ func c10StopSeesLateSpawns(p *load.Program, r *core.Report, a *Anchors) {
 	}
 	r.OK(rule, key1, fname(stop), p.Pos(flags[used].Pos()), inst1, "field '"+used+"' is stored before the Range over the process table")
 	r.OK(rule, key2, fname(spawn), p.Pos(reg.Pos()), inst2, "field '"+used+"' is read after processes.Store; one edge of its test sends the exit signal")
+}
+
+// appStopSignalFromParent: an actor traps every exit signal but the one of its parent. The members
+// of an application have the core that STARTED the application as their parent — for an application
+// started by a remote node that is the remote core. Every exit signal the application sends to a
+// member is therefore sent on behalf of the member's parent (the `parent` field of its process
+// entry), never through node.SendExit (sender: the local core): a trapped signal leaves the member
+// running and the application in 'stopping' for ever.
+func appStopSignalFromParent(p *load.Program, r *core.Report, rule, rid string) {
+	r.Floor(rule, 1)
+	seq := 0
+	for _, f := range funcsOfPkgs(p, "node") {
+		root := f
+		for root.Parent() != nil {
+			root = root.Parent()
+		}
+		if root.Signature.Recv() == nil || !strings.HasSuffix(root.Signature.Recv().Type().String(), "node.application") {
+			continue
+		}
+		eachInstr(f, func(in ssa.Instruction) {
+			cc := callCommon(in)
+			if cc == nil || !callsNamed(in, "SendExit", "RouteSendExit") {
+				return
+			}
+			seq++
+			fn := fname(f)
+			key := fmt.Sprintf("%s|%s|exit#%d", rid, fn, seq)
+			inst := "the exit signal an application sends to a member carries the member's parent as the sender"
+			name := callName(cc)
+			if name == "SendExit" {
+				r.Bad(rule, key, fn, p.Pos(in.Pos()), inst, "node.SendExit sends as the local core: a member of an application started by a remote node (its parent is that node's core) traps the signal — ApplicationStop never completes and the application stays in 'stopping'")
+				return
+			}
+			args := cc.Args
+			if !cc.IsInvoke() {
+				args = args[1:]
+			}
+			fromParent := false
+			seen := map[ssa.Value]bool{}
+			var walk func(v ssa.Value)
+			walk = func(v ssa.Value) {
+				if v == nil || seen[v] {
+					return
+				}
+				seen[v] = true
+				if ph, ok := v.(*ssa.Phi); ok {
+					for _, e := range ph.Edges {
+						walk(e)
+					}
+					return
+				}
+				if _, path, okp := fieldPath(v); okp && len(path) > 0 && path[len(path)-1] == "parent" {
+					fromParent = true
+				}
+			}
+			walk(args[0])
+			if fromParent {
+				r.OK(rule, key, fn, p.Pos(in.Pos()), inst, "the sender is read from the 'parent' field of the member's process entry (the local core only when the entry is gone)")
+			} else {
+				r.Bad(rule, key, fn, p.Pos(in.Pos()), inst, "the sender is not the member's parent: a member whose parent is another core traps the signal and keeps running")
+			}
+		})
+	}
+}
+
+// c10PoolOutlivedByWorkers: N12 — a supervisor reports its own termination only after its children
+// have terminated (N7). A pool starts workers as well, and whoever waits for the pool (ApplicationStop
+// waits for its group members, a supervisor for its children, node.Stop for the count) takes the
+// pool's termination for the termination of what it started. The termination path of the pool —
+// ProcessTerminate and what it calls — therefore has to look at the worker ring (to wait for the
+// workers or at least to take them down synchronously). Open finding F-BW: today it does not.
+func c10PoolOutlivedByWorkers(p *load.Program, r *core.Report) {
+	rule := "C10.N12 pool-terminates-after-its-workers"
+	r.Floor(rule, 1)
+	term := p.Func("act", "Pool", "ProcessTerminate")
+	if term == nil {
+		r.Unk(rule, "C10.N12|(*act.Pool).ProcessTerminate", "", "", "the pool's termination callback is found", "not found")
+		return
+	}
+	fn := fname(term)
+	key := "C10.N12|" + fn
+	inst := "the pool's termination path consults the ring of its workers (waits for them / takes them down) before the pool is reported as terminated"
+	seen := map[*ssa.Function]bool{term: true}
+	work := []*ssa.Function{term}
+	touches := false
+	for len(work) > 0 {
+		g := work[len(work)-1]
+		work = work[:len(work)-1]
+		for _, h := range family(g) {
+			eachInstr(h, func(in ssa.Instruction) {
+				if fa, ok := in.(*ssa.FieldAddr); ok {
+					if st := derefStruct(fa.X.Type()); st != nil && st.Field(fa.Field).Name() == "pool" && strings.HasSuffix(fa.X.Type().String(), "act.Pool") {
+						touches = true
+					}
+				}
+				if cc := callCommon(in); cc != nil {
+					if sf := staticCallee(cc); sf != nil && pkgSuffix(sf) == "act" && !seen[sf] && len(sf.Blocks) > 0 {
+						seen[sf] = true
+						work = append(work, sf)
+					}
+				}
+			})
+		}
+	}
+	if touches {
+		r.OK(rule, key, fn, p.Pos(term.Pos()), inst, "the termination path reads the worker ring")
+	} else {
+		r.Bad(rule, key, fn, p.Pos(term.Pos()), inst, "the termination path never looks at the workers: they are taken down by their link AFTER the pool has been reported as terminated — ApplicationStop returns nil (state 'loaded') while a busy worker of the application still runs")
+	}
 }
